@@ -66,14 +66,24 @@ def variants_generic(rng):
     def f(fn, args, i):
         a = args[i]
         if isinstance(a, (bytes, bytearray)):
-            return [rng.randbytes(len(a)), bytes(a) + b"\x00", bytes(a)[:-1]]
+            a = bytes(a)
+            out = [rng.randbytes(len(a)), a + b"\x00", a[:-1]]
+            if a:      # neighbours sharing a prefix / a suffix / all but one bit / all but the parity bits
+                out += [a[:-1] + bytes([a[-1] ^ 0x10]), bytes([a[0] ^ 0x02]) + a[1:], bytes(b ^ 1 for b in a),
+                        a[:len(a) // 2] + rng.randbytes(len(a) - len(a) // 2)]
+            return out
         if isinstance(a, str):
             alt = "".join(rng.choice(DIG) for _ in a) if a.isdigit() else a.swapcase()
-            return [alt, a + "0", a[:-1]]
+            out = [alt, a + "0", a[:-1]]
+            if a.isdigit() and a:
+                # same length: same suffix with another first digit, same prefix with another last digit; the same number
+                # with a leading zero more / less
+                out += [DIG[(int(a[0]) + 1) % 10] + a[1:], a[:-1] + DIG[(int(a[-1]) + 3) % 10], "0" + a, a.lstrip("0") or "0"]
+            return out
         if isinstance(a, bool) or a is None:
             return []
         if isinstance(a, int):
-            return [a + 1, max(0, a - 1)]
+            return [a + 1, max(0, a - 1), a + 2, a + 8, 0]
         return []
     return f
 
